@@ -1023,10 +1023,7 @@ class Client(BaseClient):
             while sources:
                 src = sources.popleft()
                 async for path in self.path_io.list(src):
-                    if write_into:
-                        relative = destination.name / path.relative_to(source)
-                    else:
-                        relative = path.relative_to(source.parent)
+                    relative = destination / path.relative_to(source)
                     if await self.path_io.is_dir(path):
                         await self.make_directory(relative)
                         sources.append(path)
